@@ -60,7 +60,7 @@ def systems(tier):
                         kwargs=dict(nrewind=2, maxiter=2, cycles=[typ], cycle_tol=0.3), F=2))
     # a molecule of more than 10 residues (the engine's trees are consolidated after it) followed by molecules whose
     # placements fail: rollback has to work on the consolidated tree
-    for nrewind in (1, 2):
+    for nrewind in (2,) if tier == "quick" else (1, 2):
         out.append(dict(types=["CH11", "CH3"], molecules=[("CH11", 1), ("CH3", 2)], box=[5.0, 5.0, 5.0], grid=GRID,
                         kwargs=dict(nrewind=nrewind, maxiter=2), F=2))
     if tier == "thorough":
